@@ -28,8 +28,9 @@ Same == UNCHANGED half
 \* ------------------------------------------------------------ environment
 TEnvMig ==
   /\ Is("EnvMig") /\ Ev.size % Unit = 0
+  /\ Ev.owner \in GPUs /\ InMem(Ev.owner, Ev.from, Ev.size)
   /\ EnvMig(Ev.g, [id |-> Ev.id, from |-> Ev.from, to |-> Ev.to, n |-> Ev.size \div Unit,
-                   owner |-> Ev.owner, src |-> Ev.src])
+                   owner |-> Ev.owner, src |-> Ev.src, snap |-> ReadMem(Ev.owner, Ev.from, Ev.size)])
 TTakeComplete == Is("TakeComplete") /\ TakeComplete(Ev.g)
 \* One transfer between two controllers shows up as two hook events (RetrieveOutgoing at the sender,
 \* Recvd at the receiver).  A connection that stores messages logs the pick-up first; akita's
